@@ -405,3 +405,19 @@ Proof.
   split; [exact H1|]. cbn in H3. now rewrite H3.
 Qed.
 End LoopFacts.
+
+(* ---------- corollaries used by Properties/C08.v ---------- *)
+Lemma Forall2_map_ok {X A} (h : X -> A) (xs : list X) (l : list A) :
+  Forall2 (fun x a => exists sr : option sref, (fun (n : X) (_ : option sref) => Ok (h n)) x sr = Ok a) xs l ->
+  l = map h xs.
+Proof.
+  induction 1 as [|x a xs l (sr & E) _ IH]; [reflexivity|]. cbn [map]. injection E as <-. now rewrite IH.
+Qed.
+
+Lemma flatten_node_of (f : list (gtree seg)) : flatten (map node_of f) = gflatten f.
+Proof.
+  unfold flatten, gflatten. induction f as [|x f IHf]; [reflexivity|]. cbn [map flat_map]. rewrite IHf. f_equal.
+  clear IHf f. induction x as [a r | n r st cs IH] using gtree_ind'; [reflexivity|].
+  cbn [node_of flatten_node]. rewrite gflatten_tree_GG. unfold gflatten.
+  induction IH as [|y cs Hy _ IHcs]; [reflexivity|]. cbn [map flat_map]. now rewrite Hy, IHcs.
+Qed.
